@@ -18,7 +18,7 @@ Definition C02_full_statement : Prop :=
 
 (** Proved part (flat canonical streams, any codec): reading the reference
     stream and writing the object back, with either strategy, reproduces the
-    stream exactly. AT values and nesting are not in the proved part. *)
+    stream exactly (all 33 non-SQ VRs, AT included). Nesting is not in this part. *)
 Theorem C02_flat_partial : forall c d nochange es,
   canon_flat c d es -> StronglySorted tag_lt (map ctag es) ->
   exists obj, read_dataset c d (canon_encode c es) = Ok obj /\
